@@ -587,3 +587,37 @@ def gen_sys(rng, idx, big=False):
 
 
 FAMILIES['sys'] = gen_sys
+
+
+def gen_sysm(rng, idx, big=False):
+    """System lifecycle: sequences of System() creations, asset creations of several classes,
+    simulate calls on the latest and on stale systems, find_assets with every filter combination."""
+    L = [['scenario', str(idx)]]
+    nsys = 0
+    nassets = 0
+    classes = ['handler', 'processor', 'sink', 'buffer', 'source', 'maint']
+    if rng.random() < 0.15:
+        L.append(['S', 'asset', rng.choice(classes), '0'])     # before any System exists
+    for _ in range(rng.randint(4, 16 if not big else 40)):
+        c = rng.random()
+        if c < 0.18 or nsys == 0:
+            L.append(['S', 'new'])
+            nsys += 1
+        elif c < 0.55:
+            L.append(['S', 'asset', rng.choice(classes), str(rng.randrange(4))])
+            nassets += 1
+        elif c < 0.75:
+            L.append(['S', 'simulate', str(rng.randrange(nsys) if rng.random() < 0.4 else nsys - 1)])
+        else:
+            L.append(['S', 'find', str(rng.randrange(nsys)),
+                      rng.choice(['-', '-', str(rng.randrange(4))]),
+                      rng.choice(['-', '-', '-', str(rng.randrange(max(nassets, 1)))]),
+                      rng.choice(['-', '-'] + classes), rng.choice(['-', '-'] + classes)])
+        if rng.random() < 0.3:
+            L.append(['S', 'counts'])
+    L.append(['S', 'counts'])
+    L.append(['end'])
+    return L
+
+
+FAMILIES['sysm'] = gen_sysm
